@@ -201,3 +201,27 @@ def constructors(ctx, prog):
         nb += check_entry(ctx, prog, f)
     ctx.floor(R, len(es), 6, "exported safe constructors taking raw internals")
     ctx.floor(R, nb, 20, "parameter-rooted beliefs on their call chains")
+
+
+def panic_purity(ctx, prog, floor=2):
+    """a checked initialiser (a safe function with a `&mut self` receiver that panics by contract on bad arguments) validates
+    BEFORE it stores: no store through the receiver on any path to one of its own panic sites.  Otherwise a caller that
+    catches the panic is left holding a half-written / rejected object."""
+    from . import errpure
+    from ..mir import is_panic_call
+    R = "SA-ERRPURE"
+    n = 0
+    for f in prog.fns:
+        if f.argc < 1 or f.derived or f.unsafe or not f.locals[1]["ty"].startswith("&mut"):
+            continue
+        if f.locals[1]["ty"].startswith("&mut ["):
+            continue
+        # (beliefs - debug_assert!/invariant! - are not part of the contract; they are pruned in release builds)
+        pb = [i for i in f.live if is_panic_call(f.blocks[i]["term"]) and
+              not any(m in ("debug_assert", "invariant", "debug_assert_eq", "debug_assert_ne") for m in f.blocks[i]["term"]["sp"].get("macros", []))]
+        if not pb:
+            continue
+        n += 1
+        errpure.check(ctx, R, "%s: the receiver is untouched when the function panics on its arguments (validate before store)" % f.short, f, {1}, pb,
+                      what="the receiver")
+    ctx.floor(R, n, floor, "safe `&mut self` functions with their own panic sites")
